@@ -339,6 +339,34 @@ def _c16(S, serde, fcp, env, text, name, s, v):
             must_raise = True
         if label.startswith("cut=") and not must_raise:
             raise AssertionError(("reference decoder accepted a strict prefix", type_str(s), v, label))
+        huge = label.startswith("count@") and int(label.split("=")[1]) >= (1 << 20)
+        if huge:
+            # 'work bounded by the input': also in memory.  A decoder that allocates what the prefix announces
+            # before looking at the data shows up as a traced peak far above the input size.
+            import tracemalloc
+
+            tracemalloc.start()
+            try:
+                try:
+                    serde.decode(fcp, name, bytearray(data))
+                except Exception:  # noqa
+                    pass
+                peak = tracemalloc.get_traced_memory()[1]
+            except MemoryError:
+                peak = 1 << 62
+            finally:
+                tracemalloc.stop()
+            S.count("executions")
+            if peak > (4 << 20) + 256 * len(data):
+                S.add("outcomes", "memory")
+                S.violation(
+                    "C16.budget",
+                    "C16.budget/memory-grows-with-announced-length/%s" % sc,
+                    _inp(text, name, s, v, bytes=data, op=label, full=ref),
+                    expected="peak memory bounded by the input (%d bytes)" % len(data),
+                    actual="peak %d bytes" % peak,
+                )
+                continue
         try:
             got, _n = _count_calls(lambda: serde.decode(fcp, name, bytearray(data)), budget)
             if must_raise:
